@@ -1508,7 +1508,11 @@ class Exec:
                 v = self.eval(p.value, frame)
                 conv = p.conversion
                 if p.format_spec is not None:
-                    self.eval(p.format_spec, frame)
+                    fs = self.eval(p.format_spec, frame)
+                    if fs == "04x" and isinstance(v, (SInt, int)) and not isinstance(v, bool):
+                        from .intrinsics_lib import hex04
+                        parts.append(hex04(self.intr, v))
+                        continue
                     parts.append(self.fresh("fmt", "str"))
                     continue
                 if conv == 114:  # !r
